@@ -53,6 +53,20 @@ def star_irregular(mesh, mask=None):
     return False
 
 
+def bc_extended_support(mesh, S, spec):
+    """Support of an untruncated BC/RBC space: the selection plus every element touching an end point of a dof edge."""
+    v, e, d = mesh
+    edofs, esup = B.rwg_expected(mesh, S, bool(spec.get("inc")), bool(spec.get("trunc")))
+    ext = np.array(esup, dtype=bool) | np.asarray(S, dtype=bool)
+    if spec.get("trunc"):
+        return ext
+    star = R.vertex_star(e, v.shape[1])
+    for key in edofs:
+        for p in key:
+            ext[star[p]] = True
+    return ext
+
+
 def orientation_inconsistent(mesh, swapped):
     """True if the effective orientation (vertex order x swapped-normals flag) flips across a manifold edge."""
     v, e, d = mesh
@@ -90,6 +104,7 @@ def check_space(ctx, meshname, mesh, grid, spec, deep=True):
             ctx.declined += 1
             return None
         if kind in SP.BARY_KINDS and REFUSAL_STAR in msg and (star_irregular(mesh) or star_irregular(mesh, S)
+                                                              or star_irregular(mesh, bc_extended_support(mesh, S, spec))
                                                               or orientation_inconsistent(mesh, spec.get("swapped"))):
             ctx.declined += 1
             return None
